@@ -422,8 +422,14 @@ def access_cases(N):
 
 def c13_runs(tier, seed):
     N = q(tier, 7, 12)
-    return [RunSpec("access", sc, "plain", access_cases(N),
-                    params={"maxn": N}) for sc in ("d", "Q")]
+    ex = access_cases(N)
+    runs = [RunSpec("access", sc, "plain", ex, params={"maxn": N})
+            for sc in ("d", "Q")]
+    # random windows on grids of 300 / 70 000 points: without the self-checks
+    # (with them every accessor call re-validates the whole grid)
+    runs.append(RunSpec("access", "d", "nochk", q(tier, 64, 4000),
+                        params={"maxn": N, "exhaustive": 0}))
+    return runs
 
 
 reg(Spec(
@@ -443,10 +449,14 @@ reg(Spec(
           "intervalIndexFromAbsolute / absoluteFromRelative are mutually "
           "inverse on contained indices and report 'not contained' / throw "
           "otherwise; size, numberOfIntervals, containsIntervals, empty, "
-          "iteration, front/back, at, [] describe the same window. One case = "
-          "one (n, first window); distinct by construction."),
+          "iteration, front/back, at, [] describe the same window; the index "
+          "values also include 2^8, 2^16, 2^31, 2^32, 2^33, 2^48 +- k (values "
+          "that alias a small index when truncated). One case = one (n, first "
+          "window); distinct by construction. Beyond the exhaustive scope: "
+          "random window triples on grids of 300 and 70 000 points, half of "
+          "them hugging the 256 / 65 536 boundaries, with the same oracles."),
     required=["pairs", "triples", "index-probes", "index-probes:near-SIZE_MAX",
-              "gridsize:2", "gridsize:7"],
+              "gridsize:2", "gridsize:7", "large-grid:300", "large-grid:70000"],
     assumptions=["scope bound N on the grid size; grid point values are "
                  "irrelevant to the index algebra (one fixed increasing "
                  "sequence per size)"],
@@ -491,9 +501,10 @@ reg(Spec(
           "length 2..9 with repeats against orders 0..5 and 8 (both sides of "
           "the bound size >= order+1, member and free function), supplied "
           "grid equal / differing in four ways. linearCombination: all size "
-          "pairs 0..4 (containers and iterators). Interpolation (orders 1..4, "
-          "a solver stub): all (|x|,|y|) in 0..4 and boundary derivative "
-          "orders 0..order+1 at every array position on FIRST and LAST. "
+          "pairs 0..4 (containers and iterators) and reversed iterator ranges. "
+          "Interpolation (orders 1..4, a solver stub): all (|x|,|y|) in 0..4 "
+          "and boundary derivative orders 0..order+1, 257, 65537, 2^32, "
+          "2^32+1, 2^63, 2^64-1 at every array position on FIRST and LAST. "
           "Distinct by (entry point, arguments)."),
     required=["grid-vector:valid", "grid-vector:invalid",
               "grid-initializer-list:valid", "grid-null-shared-ptr:invalid",
@@ -503,7 +514,9 @@ reg(Spec(
               "generator-supplied-grid:invalid", "support:valid",
               "support:invalid", "spline-coefficient-count:valid",
               "spline-coefficient-count:invalid", "linear-combination:valid",
-              "linear-combination:invalid", "interpolate-sizes:valid",
+              "linear-combination:invalid",
+              "linear-combination-reversed-range:invalid",
+              "interpolate-sizes:valid",
               "interpolate-sizes:invalid", "interpolate-boundary:valid",
               "interpolate-boundary:invalid", "interpolate-boundary:node:LAST",
               "grid-exhaustive-length:6"],
@@ -550,7 +563,8 @@ reg(Spec(
     required=["problems", "boundaries:default", "boundaries:custom",
               "boundary:LAST", "boundary:derivative>=2",
               "boundary:nonzero-value", "abscissae:two-points",
-              "abscissae:window-of-larger-grid", "nodes-checked",
+              "abscissae:window-of-larger-grid", "abscissae:many",
+              "nodes-checked",
               "boundary-rows-checked", "residuals-checked"] +
              ["order:%d" % i for i in range(1, 6)],
     assumptions=[DYADIC, "uniquely solvable problems only (decided by exact "
@@ -830,6 +844,16 @@ def c09_runs(tier, seed):
     # line coverage of the same workloads (small counts, -O0 --coverage)
     runs += san_runs(tier, seed, "cov", q(tier, 0.02, 0.002), with_expr=True,
                      with_examples=False)
+    if tier == "quick":
+        # a small memcheck pass (uninitialised values are invisible to ASan)
+        vgq = [RunSpec("pool", "d", "vg", 32), RunSpec("ops", "d", "vg", 2600),
+               RunSpec("arith", "d", "vg", 336), RunSpec("high", "d", "vg", 26),
+               RunSpec("eval", "d", "vg", 700), RunSpec("gen", "d", "vg", 700)]
+        for r in vgq:
+            r.wrapper = ["valgrind", "--quiet", "--error-exitcode=77",
+                         "--track-origins=no", "--num-callers=12"]
+            r.shards = 16
+        runs += vgq
     if tier == "thorough":
         runs += san_runs(tier, seed, "asan-clang", 0.3)
         runs += san_runs(tier, seed, "dbgstl", 0.3)
@@ -858,8 +882,11 @@ reg(Spec(
           "with the same seeds; an ASan/UBSan report, libstdc++ assertion or "
           "fatal signal is a violation keyed by (kind, innermost frame under "
           "the repository); functional-oracle output belongs to the other "
-          "checks. Thorough adds clang's ASan/UBSan, checked STL "
-          "(-D_GLIBCXX_DEBUG) and valgrind memcheck (uninitialised values). "
+          "checks. A small valgrind memcheck pass (uninitialised values) over "
+          "the pool, operator, arithmetic, extreme-order, evaluation and "
+          "generator drivers is part of the quick tier; thorough adds clang's "
+          "ASan/UBSan, checked STL (-D_GLIBCXX_DEBUG) and a larger memcheck "
+          "pass. "
           "Second sentence - checked accessors: for every window of every grid "
           "of 2..7 points and every index in {0..n+2, 2^63-1, 2^63, 2^64-1-k, "
           "2^64-start+j}: Grid::at, Support::at, absoluteFromRelative, front, "
@@ -1254,8 +1281,11 @@ reg(Spec(
 
 def c15_runs(tier, seed):
     n = q(tier, 80000, 3000000)
-    return pool_runs(tier, seed) + [RunSpec("grids", "Q", "plain", n),
-                                    RunSpec("grids", "d", "plain", n)]
+    return pool_runs(tier, seed) + [
+        RunSpec("grids", "Q", "plain", n), RunSpec("grids", "d", "plain", n),
+        RunSpec("arith", "Q", "plain", q(tier, 1680, 200000)),
+        RunSpec("arith", "d", "plain", q(tier, 3360, 400000))] + high_runs(
+            tier, seed)
 
 
 reg(Spec(
@@ -1269,10 +1299,14 @@ reg(Spec(
          "as well. The grid-pair driver (see C08) adds splines with identical "
          "windows and coefficients on twin / differing grids (10 kinds of "
          "difference, including grids that differ only outside the window): "
-         "equal iff the grids are logically equal. " + POOL_NT,
+         "equal iff the grids are logically equal. Near misses (pool, "
+         "arithmetic sweep up to order 8, extreme orders up to 64): a copy "
+         "with exactly one coefficient changed - at a random position and at "
+         "the highest power of the last interval - is never equal; a spline "
+         "with exactly one non-zero coefficient is never zero. " + POOL_NT,
     required=["pred:isZero:true", "pred:isZero:false", "pred:eq:true",
-              "pred:eq:false", "pred:support-eq",
-              "c15:equality-across-grids"] +
+              "pred:eq:false", "pred:support-eq", "pred:near-misses",
+              "order:64", "c15:equality-across-grids"] +
              ["pred:overlap:%s:%s" % (p, t) for p, t in (
                  ("EQ", "true"), ("A_IN_B", "true"), ("B_IN_A", "true"),
                  ("PARTIAL_L", "true"), ("PARTIAL_R", "true"),
